@@ -37,9 +37,11 @@ fn leaf_pool() -> Vec<T> {
     ]
 }
 
-fn chain(depth: usize, left: bool, zigzag: bool) -> Shape {
-    // a chain with `depth` internal nodes
-    let mut s = Shape::Leaf;
+fn chain(depth: usize, left: bool, zigzag: bool) -> Shape { chain_over(Shape::Leaf, depth, left, zigzag) }
+
+/// a chain with `depth` internal nodes above `bottom`
+fn chain_over(bottom: Shape, depth: usize, left: bool, zigzag: bool) -> Shape {
+    let mut s = bottom;
     for i in 0..depth {
         let l = if zigzag { i % 2 == 0 } else { left };
         s = if l { Shape::Node(Box::new(s), Box::new(Shape::Leaf)) } else { Shape::Node(Box::new(Shape::Leaf), Box::new(s)) };
@@ -242,6 +244,32 @@ pub fn run(tier: Tier) -> i32 {
             jobs.push(("KI".into(), sh, ls, name.into()));
         }
     }
+    // deep bushes: every shape of up to `bush` leaves hanging below a spine so that the deepest
+    // leaves sit at depth 126..=128 (several sibling pairs at the maximum depth, pairs next to
+    // single leaves, ...); the ones that would exceed depth 128 are probed for refusal below.
+    let bush = tier.pick(5, 7);
+    let mut too_deep: Vec<Shape> = vec![];
+    let shape_depth = |sh: &Shape| *sh.depths().iter().max().unwrap() as usize;
+    for n in 2..=bush {
+        for b in Shape::all(n) {
+            let bd = shape_depth(&b);
+            for total in [126usize, 127, 128, 129] {
+                if total < bd {
+                    continue;
+                }
+                let spine = total - bd;
+                for (l, z, name) in [(true, false, "deep-bush-left"), (false, false, "deep-bush-right"), (true, true, "deep-bush-zigzag")] {
+                    let sh = chain_over(b.clone(), spine, l, z);
+                    if total <= 128 {
+                        let ls: Vec<T> = (0..sh.n_leaves()).map(|i| T::Check(Box::new(T::PkK(format!("K{}", i + 1))))).collect();
+                        jobs.push(("KI".into(), sh, ls, name.into()));
+                    } else if n <= 4 {
+                        too_deep.push(sh);
+                    }
+                }
+            }
+        }
+    }
     // single leaf, and key-only
     let cen = jobs
         .par_iter()
@@ -276,7 +304,10 @@ pub fn run(tier: Tier) -> i32 {
     }
     // depth 129 must be rejected by combine and by the parser
     for (l, z) in [(true, false), (false, false), (true, true)] {
-        let sh = chain(129, l, z);
+        too_deep.push(chain(129, l, z));
+    }
+    for sh in too_deep {
+        let (l, z) = (sh.n_leaves(), fnv64(format!("{:?}", sh.depths()).as_bytes()));
         let ls: Vec<(u8, T)> = sh.depths().iter().enumerate().map(|(i, d)| (*d, T::Check(Box::new(T::PkK(format!("K{}", i + 1)))))).collect();
         let r1 = guard(|| build_taptree::<String>(&ls, &StrEnv).is_ok());
         let s = D::Tr("KI".into(), ls.clone()).print();
@@ -301,7 +332,7 @@ pub fn run(tier: Tier) -> i32 {
         }
     }
     let _ = (walk::<String, Tap>, build::<String, Tap>, TapTree::<String>::leaf::<std::sync::Arc<Miniscript<String, Tap>>>);
-    rep.extra("bounds", json!({"all_shapes_up_to_leaves": max_leaves, "shapes": n_shapes, "chains": "left/right/zig-zag, every depth 1..=128", "internal_keys": 2}));
+    rep.extra("bounds", json!({"all_shapes_up_to_leaves": max_leaves, "shapes": n_shapes, "chains": "left/right/zig-zag, every depth 1..=128", "deep_bush_leaves": bush, "internal_keys": 2}));
     rep.sample(json!({"tree": "every binary tree shape up to the leaf bound, leaves = 9 distinct tapscripts rotated per shape"}));
     rep.sample(json!({"oracle": "recursive BIP341 reference: TapLeaf/TapBranch/TapTweak tagged hashes, output key + parity, control block bytes; each library control block is additionally verified against the scriptPubKey"}));
     rep.assume("secp256k1 point arithmetic and SHA256 are correct");
@@ -311,7 +342,7 @@ pub fn run(tier: Tier) -> i32 {
         rep.get("control_blocks_verified"),
         rep.get("trees"),
         rep.get("trees_ok").min(rep.get("control_blocks_verified")),
-        "ALL binary tree shapes up to the leaf bound x 2 internal keys (+ repeated leaves), left/right/zig-zag chains of every depth 1..128, depth 129 refused; each tree built by leaf/combine, by parsing the reference string and by key translation; merkle root, output key, parity, every control block, leaf order/depth, scriptPubKey/address, bitcoin::TapTree and Display->FromStr compared with a recursive BIP341 reference. non-trivial = min(trees fully agreeing, control blocks independently verified)",
+        "ALL binary tree shapes up to the leaf bound x 2 internal keys (+ repeated leaves), left/right/zig-zag chains of every depth 1..128, every shape up to the bush bound below a spine reaching depth 126..128 (several sibling pairs at the maximum depth), depth 129 refused for chains and bushes; each tree built by leaf/combine, by parsing the reference string and by key translation; merkle root, output key, parity, every control block, leaf order/depth, scriptPubKey/address, bitcoin::TapTree and Display->FromStr compared with a recursive BIP341 reference. non-trivial = min(trees fully agreeing, control blocks independently verified)",
         true,
     )
 }
